@@ -161,7 +161,7 @@ func (s *session) emit(extra ...string) {
 		s.tags["nt"] = true
 	}
 	var ts []string
-	for _, t := range []string{"nt", "step", "adjust", "panic", "epochchg", "nonmono", "biggap", "minint", "pow", "clampgap", "zerodt", "boundary", "restart", "long", "extreme"} {
+	for _, t := range []string{"nt", "step", "adjust", "panic", "epochchg", "nonmono", "biggap", "minint", "pow", "clampgap", "zerodt", "boundary", "restart", "long", "extreme", "large", "hours", "days", "ns1", "clampedge"} {
 		if s.tags[t] {
 			ts = append(ts, t)
 		}
@@ -443,6 +443,101 @@ func history(r *lib.Rng, flavour int, n int) {
 	s.emit()
 }
 
+// large-but-legal inputs: offsets of hours (at the initial step and while
+// tracking), intervals of 1 ns and of days, offsets that put the slew exactly
+// at / next to the 500 ppm clamp for the gain in force.  Own case kind so that
+// the family has its own coverage floor.
+func largeHistory(r *lib.Rng, n int) {
+	s := newSession()
+	s.kind = "pll.large"
+	s.tags["large"] = true
+	hour := 3600 * second
+	day := 24 * hour
+	now := reading{r.Range(1600000000, 2000000000), r.Range(0, second-1)}
+	epoch := uint64(r.Intn(3))
+	bigOff := func() int64 {
+		s.tags["hours"] = true
+		switch r.Intn(4) {
+		case 0:
+			return lib.Pick(r, int64(1), -1) * r.Range(1, 72) * hour
+		case 1:
+			return lib.Pick(r, int64(1), -1) * (r.Range(1, 72)*hour + r.Range(-second, second))
+		case 2:
+			return lib.Pick(r, int64(1), -1) * r.Range(60*second, 400*day)
+		default:
+			return lib.Pick(r, int64(1), -1) * lib.Pick(r, hour, 12*hour, day, 7*day, 365*day, 1<<53, 1<<53+1)
+		}
+	}
+	// start-up: zero or more initial steps by hours (each restarts through the epoch), then into tracking
+	steps := r.Intn(3)
+	s.do(update{now, epoch, bigOff(), genWeight(r, 1)})
+	for i := 0; i < steps; i++ {
+		now = now.add(2*second + r.Range(1, 3*second))
+		s.do(update{now, epoch, bigOff(), genWeight(r, 1)})
+		if s.lastStep {
+			epoch++
+			now = now.add(r.Range(0, second))
+			s.do(update{now, epoch, bigOff(), genWeight(r, 0)})
+		}
+	}
+	now = now.add(2*second + r.Range(1, second))
+	s.do(update{now, epoch, r.Range(-900000, 900000), genWeight(r, 1)}) // below 1 ms: no step, on to the PLL wait
+	now = now.add(6*second + r.Range(1, second))
+	s.do(update{now, epoch, bigOff(), genWeight(r, 0)})
+	for k := 0; k < n; k++ {
+		var gap int64
+		switch r.Intn(8) {
+		case 0:
+			gap = 1
+			s.tags["ns1"] = true
+		case 1:
+			gap = lib.Pick(r, int64(1), 2, 3, 999999999, second+1)
+			s.tags["ns1"] = true
+		case 2:
+			gap = r.Range(1, 40) * day
+			s.tags["days"] = true
+		case 3:
+			gap = r.Range(1, 40)*day + lib.Pick(r, int64(1), -1, 2, 500000000, -500000000)
+			s.tags["days"] = true
+		case 4:
+			gap = r.Range(1, 48) * hour
+		case 5:
+			gap = r.Range(day, 400*day)
+			s.tags["days"] = true
+		default:
+			gap = genGap(r)
+		}
+		now = now.add(gap)
+		wb := genWeight(r, lib.Pick(r, 0, 0, 2, 3))
+		var off int64
+		switch r.Intn(4) {
+		case 0, 1:
+			off = bigOff()
+		case 2:
+			// the slew p = offset*a exactly at / next to d*500e-6 for the gain in force
+			d := float64((gap + second - 1) / second)
+			wv := math.Float64frombits(wb)
+			a := 0.33
+			if wv < 50 {
+				a = 3e-2
+			} else if wv < 150 {
+				a = 6e-2
+			}
+			edge := d * 500e-6 / a * 1e9
+			if edge < 9e18 {
+				off = lib.Pick(r, int64(1), -1)*int64(edge) + r.Range(-3, 3)
+				s.tags["clampedge"] = true
+			} else {
+				off = bigOff()
+			}
+		default:
+			off = genOffset(r)
+		}
+		s.do(update{now, epoch, off, wb})
+	}
+	s.emit()
+}
+
 // fixed histories that hit the clauses of the property directly
 func scripted() {
 	type st struct {
@@ -512,6 +607,7 @@ func scripted() {
 func replay(c [3]string) {
 	f := lib.Fields(c[2])
 	s := newSession()
+	s.kind = c[0] // pll.history, pll.longgap, pll.large: the same session, judged differently by the runner
 	for i := 0; i+5 < len(f); i += 6 {
 		b, ok := new(big.Int).SetString(f[i], 10)
 		if !ok {
@@ -534,7 +630,7 @@ func main() {
 	defer w.Close()
 	if a.Replay != "" {
 		for _, c := range lib.ReplayLines(a.Replay) {
-			if c[0] == "pll.history" {
+			if strings.HasPrefix(c[0], "pll.") {
 				replay(c)
 			}
 		}
@@ -553,5 +649,8 @@ func main() {
 			ln = 60 + r.Intn(200)
 		}
 		history(r, flavour, ln)
+		if i%5 == 0 {
+			largeHistory(r, 6+r.Intn(24))
+		}
 	}
 }
